@@ -153,7 +153,7 @@ LastIsPos(rc) == rc # <<>> /\ rc[Len(rc)].k = "pos"
 MutPre(f, rc, mut) ==
   LET st == FinalSt(f, St0, rc) IN
   /\ WellFormed(f, rc)
-  /\ CASE mut.kind = "surplus" -> ~st.bare /\ Len(PosTexts(rc)) = NPosMax(f)             \* every argument slot is taken
+  /\ CASE mut.kind \in {"surplus", "surplussep"} -> ~st.bare /\ Len(PosTexts(rc)) = NPosMax(f)   \* every argument slot is taken
        [] mut.kind \in {"unknown", "unknownval"} -> ~st.sep /\ ~HasOpt(f, ZZ)
        \* one dash too many in front of a declared long name: the name "-long" is not declared
        [] mut.kind = "overdash" -> ~st.sep /\ mut.j \in 1..Len(f.opts)
@@ -163,6 +163,8 @@ MutPre(f, rc, mut) ==
        [] mut.kind = "dropreq" -> LastIsPos(rc) /\ Len(PosTexts(rc)) = NRequired(f)          \* the last required argument goes
 MutLine(f, rc, mut) ==
   CASE mut.kind = "surplus" -> Render(f, rc) \o <<ZZ>>
+    \* the surplus positional is a "--" behind the separator (a second "--" is a value like any other)
+    [] mut.kind = "surplussep" -> Render(f, rc) \o (IF FinalSt(f, St0, rc).sep THEN <<DD>> ELSE <<DD, DD>>)
     [] mut.kind = "unknown" -> Render(f, rc) \o <<DD \o ZZ>>
     [] mut.kind = "unknownval" -> Render(f, rc) \o <<DD \o ZZ \o <<"=", "v">>>>
     [] mut.kind = "overdash" -> Render(f, rc) \o <<<<"-">> \o LongT(f.opts[mut.j])>>
